@@ -75,7 +75,14 @@ namespace cnl {
             template<typename Destination, typename Source>
             [[nodiscard]] constexpr auto operator()(Source const& rhs) const
             {
-                return rhs > static_cast<Source>(std::numeric_limits<Destination>::max());
+                if constexpr (
+                        std::is_integral_v<Destination>
+                        && std::numeric_limits<Source>::digits < std::numeric_limits<Destination>::digits) {
+                    // max() is not representable in Source: it converts to max()+1
+                    return rhs >= static_cast<Source>(std::numeric_limits<Destination>::max());
+                } else {
+                    return rhs > static_cast<Source>(std::numeric_limits<Destination>::max());
+                }
             }
         };
 
